@@ -75,6 +75,45 @@ def check_after_context(case):
                         "what": "%s: after %s on the same object, %s = %r but the per-residue definition gives %r"
                                 % (seq, name, bad[0], a[bad[0]], float(r[bad[0]])), "case": dict(case, seq=seq, context=name)})
             break
+    # derived objects (the values are permutation-invariant, so whatever arrangement the random shuffle produced they must be
+    # those of `seq`): SequencePermutants(seq).get_permutant(), get_shuffled_sequence(), and a SeqObj-sharing second wrapper
+    if not out:
+        # the shuffles' random draws are answered from a fixed pseudo-random tape (deterministic, replayable)
+        from ..engines import choice as C
+        import localcider.backend.sequence as S_
+        old_rng = S_.rng
+        C.install(S_)
+        C.ScriptedRandom.tape = C.Tape((), seed=4104, horizon=10 ** 7)
+        try:
+            from localcider.sequencePermutants import SequencePermutants
+            derived = [("SequencePermutants.get_permutant", SequencePermutants(seq).get_permutant()),
+                       ("get_shuffled_sequence", SP(seq).get_shuffled_sequence()),
+                       ("get_shuffled_sequence(frozen first half)", o.get_shuffled_sequence(set(range(len(seq) // 2)))),
+                       ("SequenceParameters(SeqObj=)", SP(SeqObj=SP(seq).SeqObj))]
+        except Exception as e:  # noqa
+            out.append({"key": "after-context:exception", "what": "%s: deriving a permutant raised %r" % (seq, e), "case": dict(case, seq=seq)})
+            derived = []
+        finally:
+            C.ScriptedRandom.tape = None
+            S_.rng = old_rng
+        for name, dobj in derived:
+            n += 1
+            try:
+                a = light(dobj)
+                a["length"] = dobj.get_length()
+                a["len"] = len(dobj)
+                a["sorted_sequence"] = "".join(sorted(dobj.get_sequence()))
+            except Exception as e:  # noqa
+                out.append({"key": "derived-object:exception", "what": "%s: getters of the object from %s raised %r" % (seq, name, e),
+                            "case": dict(case, seq=seq, route=name)})
+                continue
+            exp = dict(r, length=len(seq), len=len(seq), sorted_sequence="".join(sorted(seq)))
+            bad = [k for k in a if not (a[k] == exp[k] if (k.startswith("count") or k in ("length", "len", "sorted_sequence"))
+                                        else core.close(a[k], float(exp[k]), 1e-9, 1e-12))]
+            if bad:
+                out.append({"key": "derived-object:" + bad[0], "what": "%s: the object from %s reports %s = %r, the per-residue definition over the "
+                            "same residues gives %r" % (seq, name, bad[0], a[bad[0]], exp[bad[0]] if isinstance(exp[bad[0]], (int, str)) else float(exp[bad[0]])),
+                            "case": dict(case, seq=seq, route=name)})
     return out, n
 
 
@@ -235,7 +274,7 @@ def run(tier, seed, t0):
              "that length), plus all homopolymers X^a (a<=12) and two-residue blocks X^a Y^b (4<=a+b<=12) and long ones (130..1000 residues; 1000-2500 (thorough 12000) residues over all 20 residues); per sequence 18 real "
              "getter calls (+ 13 calls with other spellings of the PPII scale name: capitalised, upper and mixed case, positional and keyword, default) (counts, fractions, FCR, NCPR, mean net charge, expanding, disorder-promoting, 20 aa fractions, "
              "KD 0-9 / Uversky / Wimley-White hydropathy, 3 PPII scales, molecular weight) compared with exact sums over pinned "
-             "published tables, 5 identities, and equality across permutations; after-context pass: on one live object per X^6, X^3Y^4 (all 380 ordered pairs) and 5 longer words, 16 other API calls (kappa, Omega, kappa_X incl. groups absent from the sequence, pI, pH getters, phosphosites, linear profiles, complexity, palette) each followed by 14 composition getters that must still equal the per-residue sums; non-trivial = multisets with >=2 distinct "
+             "published tables, 5 identities, and equality across permutations; after-context pass: on one live object per X^6, X^3Y^4 (all 380 ordered pairs) and 5 longer words, 16 other API calls (kappa, Omega, kappa_X incl. groups absent from the sequence, pI, pH getters, phosphosites, linear profiles, complexity, palette) each followed by 14 composition getters that must still equal the per-residue sums, then the same getters plus length on four derived objects (permutant, two shuffles, SeqObj-sharing wrapper); non-trivial = multisets with >=2 distinct "
              "residues" % Lw,
         bounds={"multiset_size": Lw, "block_total": 12, "tolerance_rel": 1e-9},
         assumptions=["published per-residue values pinned in vmc/refmodel/tables.py"])
